@@ -40,6 +40,7 @@ def step_strategy():
     from hypothesis import strategies as st
     math = st.one_of(
         st.just({'in_math_mode': False, 'math_mode_delimiter': None}),
+        st.just({'in_math_mode': False}),       # the delimiter is reset implicitly
         st.sampled_from(['$', '$$', '\\(', '\\[', '!', '!!', None]).map(
             lambda d: {'in_math_mode': True, 'math_mode_delimiter': d}),
         st.just({'in_math_mode': True}),
@@ -254,13 +255,34 @@ def check_chain(chain, strings, res, case_base, label=True):
             res.label('non-trivial')
 
 
+# exhaustive family: every chain of up to ENUM_LEN steps over the math-related steps (the
+# inheritance paths of the cached tables: enter / leave math mode with and without naming the
+# delimiter, changing a delimiter list, no-op)
+MATH_STEPS = [
+    {'in_math_mode': True, 'math_mode_delimiter': '$'},
+    {'in_math_mode': True, 'math_mode_delimiter': '$$'},
+    {'in_math_mode': True, 'math_mode_delimiter': '\\('},
+    {'in_math_mode': True, 'math_mode_delimiter': '!'},
+    {'in_math_mode': True},
+    {'in_math_mode': False},
+    {'in_math_mode': False, 'math_mode_delimiter': None},
+    {'math_mode_delimiter': '$'},
+    {'latex_inline_math_delimiters': [['$', '!']]},
+    {'latex_inline_math_delimiters': [['!', '!']]},
+    {'latex_display_math_delimiters': [['$$', '!!']]},
+    {'enable_math': False},
+    {},
+]
+
+
 def plan(tier, seed):
     n, L = (320, 3) if tier == 'quick' else (6400, 4)
     shards = [('chains', n // NSHARDS, L, seed * 1000 + k) for k in range(NSHARDS)]
+    shards += [('enum', 3 if tier == 'quick' else 4, 2, k) for k in range(NSHARDS)]
     return {'shards': shards, 'bounds': {'chains': n, 'max_chain': 5, 'string_tokens': L},
             'required_classes': ['changed:G', 'changed:M', 'changed:I', 'changed:F', 'changed:C',
                                  'delimiter-list-changed-while-in-math', 'no-op-step',
-                                 'non-trivial']}
+                                 'non-trivial', 'enumerated-chain']}
 
 
 def strings_for(chain, L):
@@ -271,6 +293,18 @@ def strings_for(chain, L):
 
 
 def run_shard(shard, res):
+    if shard[0] == 'enum':
+        _, clen, L, k = shard
+        i = 0
+        for l in range(1, clen + 1):
+            for chain in itertools.product(MATH_STEPS, repeat=l):
+                if i % NSHARDS == k:
+                    chain = [dict(c) for c in chain]
+                    check_chain(chain, strings_for(chain, L), res, {'chain': chain})
+                    res.label('enumerated-chain')
+                i += 1
+        res.exhaustive = True
+        return
     _, n, L, seed = shard
 
     def one(chain):
